@@ -27,6 +27,14 @@ import GlmVerif.Props.C12.T_perp_orth
 import GlmVerif.Props.C12.T_angle
 import GlmVerif.Props.C12.T_trinormal
 import GlmVerif.Props.C12.T_closest
+import GlmVerif.Props.C12.T_sangle
+import GlmVerif.Props.C12.T_orientedangle2
+import GlmVerif.Props.C12.T_orientedangle3
+import GlmVerif.Props.C12.T_l1norm
+import GlmVerif.Props.C12.T_l1norm2
+import GlmVerif.Props.C12.T_l2norm
+import GlmVerif.Props.C12.T_lmaxnorm
+import GlmVerif.Props.C12.T_orthonormalize
 /-! every family table of C12 holds for the model generated from the current /repo -/
 namespace Glm.Props.C12
 open Glm Glm.Spec.C12 Glm.Gen.C12
@@ -59,5 +67,13 @@ theorem all_ok : ∀ f ∈ families, f.ok lookup = true := by
     (Family.ok_congr f_perp_orth (fun ks => by rw [show f_perp_orth.unit = "perp" from rfl, lookup_perp])).trans perp_orth_ok,
     (Family.ok_congr f_angle (fun ks => by rw [show f_angle.unit = "angle" from rfl, lookup_angle])).trans angle_ok,
     (Family.ok_congr f_trinormal (fun ks => by rw [show f_trinormal.unit = "trinormal" from rfl, lookup_trinormal])).trans trinormal_ok,
-    (Family.ok_congr f_closest (fun ks => by rw [show f_closest.unit = "closest" from rfl, lookup_closest])).trans closest_ok⟩
+    (Family.ok_congr f_closest (fun ks => by rw [show f_closest.unit = "closest" from rfl, lookup_closest])).trans closest_ok,
+    (Family.ok_congr f_sangle (fun ks => by rw [show f_sangle.unit = "sangle" from rfl, lookup_sangle])).trans sangle_ok,
+    (Family.ok_congr f_orientedangle2 (fun ks => by rw [show f_orientedangle2.unit = "orientedangle" from rfl, lookup_orientedangle])).trans orientedangle2_ok,
+    (Family.ok_congr f_orientedangle3 (fun ks => by rw [show f_orientedangle3.unit = "orientedangle" from rfl, lookup_orientedangle])).trans orientedangle3_ok,
+    (Family.ok_congr f_l1norm (fun ks => by rw [show f_l1norm.unit = "l1norm" from rfl, lookup_l1norm])).trans l1norm_ok,
+    (Family.ok_congr f_l1norm2 (fun ks => by rw [show f_l1norm2.unit = "l1norm2" from rfl, lookup_l1norm2])).trans l1norm2_ok,
+    (Family.ok_congr f_l2norm (fun ks => by rw [show f_l2norm.unit = "l2norm" from rfl, lookup_l2norm])).trans l2norm_ok,
+    (Family.ok_congr f_lmaxnorm (fun ks => by rw [show f_lmaxnorm.unit = "lmaxnorm" from rfl, lookup_lmaxnorm])).trans lmaxnorm_ok,
+    (Family.ok_congr f_orthonormalize (fun ks => by rw [show f_orthonormalize.unit = "orthonormalize_v" from rfl, lookup_orthonormalize_v])).trans orthonormalize_ok⟩
 end Glm.Props.C12
